@@ -308,7 +308,7 @@ Definition resolve_chunk (s : mst) (m : mask) : res nat :=
       let mn' := if Nat.eqb mn 0 || Nat.ltb mn smin then smin else mn in
       let mx' := if Nat.eqb mx 0 || (Nat.ltb 0 smax && Nat.ltb smax mx) then smax else mx in
       (mn', mx')) (chunk_fns s) (O, O) in
-  if Nat.ltb mx mn then Err (Throw 3) else
+  if Nat.ltb 0 mx && Nat.ltb mx mn then Err (Throw 3) else        (* mx = 0: no function set an upper bound *)
   let c := def_chunk s in
   let c := if Nat.ltb c mn then mn else c in
   let c := if Nat.ltb 0 mx && Nat.ltb mx c then mx else c in
